@@ -85,6 +85,31 @@ def run_replay(ob, pid, tier):
         return path, None, "replay timeout"
 
 
+def assume_sites(ctxs):
+    """mechanical scan of the contract modules of the families that ran: every `.assume(` (callee postconditions, definitional
+    extensions of ghost functions, requires-clauses made available to the executor) is listed, none is hidden"""
+    import inspect
+    import re
+
+    out, seen = [], set()
+    for c in ctxs:
+        for name, _props, fn in core.FAMILIES:
+            if name != c.family:
+                continue
+            try:
+                path = inspect.getsourcefile(fn)
+            except TypeError:
+                continue
+            if path in seen:
+                continue
+            seen.add(path)
+            with open(path) as fh:
+                for ln, line in enumerate(fh, 1):
+                    if re.search(r"\.assume\(|assume_note\(", line):
+                        out.append(f"{os.path.relpath(path, VERIF)}:{ln}: {line.strip()[:160]}")
+    return dict(count=len(out), sites=out[:60])
+
+
 def write_replay_stub(ob, pid):
     os.makedirs(os.path.join(VERIF, "replays"), exist_ok=True)
     safe = ob.oid.replace("/", "_").replace("#", "-").replace("~", "-")
@@ -143,6 +168,10 @@ def main(argv=None):
     obs, fam_errors, ctxs = core.run_families(pid, tier, only=args.only)
     obs = dedupe(obs)
     core.discharge_all(obs, timeout_ms, jobs=int(os.environ.get("FJVC_JOBS", "0")) or None)
+    xcheck = None
+    if tier == "thorough":
+        a_, u_, d_ = core.cross_check(obs)
+        xcheck = dict(second_solver_agreed=a_, second_solver_unknown=u_, disagreements=d_)
     for ob in obs:
         if args.verbose:
             print(f"  {ob.status:14s} {ob.ms:8.1f}ms {ob.backend or '':12s} {ob.oid}")
@@ -192,6 +221,9 @@ def main(argv=None):
             grid_cache[gkey] = False
     for v in violations[MAX_REPLAY:]:
         v[1], v[2], v[3] = write_replay_stub(v[0], pid), None, "not replayed (replay budget of this run used by the first violations)"
+    if xcheck and xcheck["disagreements"]:
+        for oid in xcheck["disagreements"]:
+            checker_errors.append(core.Obligation(oid, [pid], "xcheck", [], None, note="back ends disagree on sat/unsat", status="solver_disagreement"))
     for name, kind, msg in fam_errors:
         if kind == "error":
             checker_errors.append(core.Obligation(f"{pid}/<family {name}>", [pid], "family", [], None, note=msg, status="family_error"))
@@ -284,7 +316,8 @@ def main(argv=None):
             backends=backends, solver_time_s=round(sum(ob.ms for ob in obs) / 1000, 3),
             cover_checks=sum(1 for ob in obs if ob.kind == "cover"), control_checks=sum(1 for ob in obs if ob.kind == "control"),
             untranslatable=[dict(family=n, reason=m[:400]) for n, k, m in fam_errors],
-            missing_vs_baseline=missing, guards_undetermined=guards_unknown,
+            missing_vs_baseline=missing, guards_undetermined=guards_unknown, cross_check=xcheck, assume_sites=assume_sites(ctxs),
+            proved_functions=sorted({ob.fn for ob in obs if ob.fn and ob.status in ("discharged", "ok")} - {ob.fn for ob in obs if ob.fn and ob.status not in ("discharged", "ok", "guard_unknown")}),
             bounded=l3 if l3.get("ran") else dict(ran=False, reason=l3.get("reason")),
             samples=samples,
             known_findings=[kf for _ob, kf in known_hits],
